@@ -497,4 +497,247 @@ theorem command_other_keys_preserved (m : Entries) (c : CommandStep) (h : parseC
   rcases hx with ((((((hx | hx) | hx) | hx) | hx) | hx) | hx) | hx
   all_goals (try split at hx) <;> simp at hx <;> simp [hx] at hk
 
+theorem map_ok_iff {ε α β : Type} {f : α → β} {x : Except ε α} {b : β} :
+    x.map f = .ok b ↔ ∃ a, x = .ok a ∧ b = f a := by
+  cases x with
+  | error e => simp [Except.map]
+  | ok a =>
+    simp only [Except.map, Except.ok.injEq, exists_eq_left']
+    exact ⟨fun h => h.symm, fun h => h.symm⟩
+
+/-! ## Marshalling of steps: equations (`mStep` is structurally recursive through `List Step`; the
+    equation compiler's own lemmas are not available, so they are stated here, by `rfl`) -/
+
+theorem mStep_command (c : CommandStep) : mStep (.command c) = .ok (mCommand c) := rfl
+theorem mStep_wait (s : String) (c : UMap Val) :
+    mStep (.wait s c) = .ok (if s != "" then .str s else if lenUMap c == 0 then .str "wait" else umapV c) := rfl
+theorem mStep_input (s : String) (c : UMap Val) :
+    mStep (.input s c) = if s != "" then .ok (.str s) else if lenUMap c == 0 then .error .emptyInputStep else .ok (umapV c) := rfl
+theorem mStep_trigger (c : UMap Val) : mStep (.trigger c) = .ok (umapV c) := rfl
+theorem mStep_unknown (v : Val) : mStep (.unknown v) = .ok v := rfl
+theorem mSteps_nil : mSteps [] = .ok [] := rfl
+theorem mSteps_cons (s : Step) (r : List Step) :
+    mSteps (s :: r) =
+      match mStep s with
+      | .error e => .error e
+      | .ok v =>
+        match mSteps r with
+        | .error e => .error e
+        | .ok vs => .ok (v :: vs) := rfl
+
+theorem contents_steps_preserved (m : Entries) (hm : (keysOf m).Nodup) (hne : m ≠ []) (k : String) :
+    (∃ kvs, mStep (.wait "" (some (umapOf m))) = .ok (.umap kvs) ∧ kvs.lookup k = m.lookup k) ∧
+    (∃ kvs, mStep (.input "" (some (umapOf m))) = .ok (.umap kvs) ∧ kvs.lookup k = m.lookup k) ∧
+    (∃ kvs, mStep (.trigger (some (umapOf m))) = .ok (.umap kvs) ∧ kvs.lookup k = m.lookup k) := by
+  have hl : (umapOf m).length ≠ 0 := by
+    intro e
+    exact umapOf_ne_nil hne (List.length_eq_zero_iff.1 e)
+  have hk := lookup_umapOf_nodup hm k
+  refine ⟨⟨umapOf m, ?_, hk⟩, ⟨umapOf m, ?_, hk⟩, ⟨umapOf m, ?_, hk⟩⟩
+  · simp [mStep_wait, lenUMap, hl, umapV]
+  · simp [mStep_input, lenUMap, hl, umapV]
+  · simp [mStep_trigger, umapV]
+
+/-! ## Plugins -/
+
+theorem pluginsOfMap_ne_none (kvs : List (String × Val)) : ∀ p ∈ pluginsOfMap kvs, p ≠ none := by
+  intro p hp
+  unfold pluginsOfMap at hp
+  obtain ⟨⟨k, v⟩, _, rfl⟩ := List.mem_map.1 hp
+  simp
+
+theorem pluginsElems_ne_none : (xs : List Val) → (l : List (Option Plugin)) → pluginsElems xs = .ok l →
+    ∀ p ∈ l, p ≠ none
+  | [], l, h => by
+    simp only [pluginsElems, Except.ok.injEq] at h
+    subst h; simp
+  | x :: r, l, h => by
+    cases x <;> try (solve | simp [pluginsElems] at h)
+    case str s =>
+      simp only [pluginsElems, map_ok_iff] at h
+      obtain ⟨l', hr, rfl⟩ := h
+      intro p hp
+      rcases List.mem_cons.1 hp with hp | hp
+      · simp [hp]
+      · exact pluginsElems_ne_none r l' hr p hp
+    case omap kvs =>
+      simp only [pluginsElems, map_ok_iff] at h
+      obtain ⟨l', hr, rfl⟩ := h
+      intro p hp
+      rcases List.mem_append.1 hp with hp | hp
+      · exact pluginsOfMap_ne_none _ p hp
+      · exact pluginsElems_ne_none r l' hr p hp
+
+theorem mPlugins_eq (l : List (Option Plugin)) :
+    mPlugins l = .seq (l.map fun
+      | some p => Val.umap [(fullSource p.source,
+          match p.config with | .umap [] => Val.null | .seq [] => .null | c => c)]
+      | none => .null) := by
+  unfold mPlugins
+  congr 1
+  apply List.map_congr_left
+  intro p _
+  cases p with
+  | none => rfl
+  | some p => rfl
+
+theorem plugins_normal_form (v : Val) (l : List (Option Plugin)) (h : parsePlugins v = .ok (some l)) :
+    mPlugins l = .seq (l.map fun
+      | some p => Val.umap [(fullSource p.source,
+          match p.config with | .umap [] => Val.null | .seq [] => .null | c => c)]
+      | none => .null) ∧ ∀ p ∈ l, p ≠ none := by
+  refine ⟨mPlugins_eq l, ?_⟩
+  cases v <;> try (solve | simp [parsePlugins] at h)
+  case seq xs =>
+    simp only [parsePlugins, map_ok_iff] at h
+    obtain ⟨l', hr, h⟩ := h
+    split at h
+    · cases h
+    · simp only [Option.some.injEq] at h
+      subst h
+      exact pluginsElems_ne_none xs _ hr
+  case omap kvs =>
+    simp only [parsePlugins, Except.ok.injEq] at h
+    split at h
+    · cases h
+    · simp only [Option.some.injEq] at h
+      subst h
+      exact pluginsOfMap_ne_none kvs
+
+theorem plugins_from_mapping (kvs : List (String × Val)) (hne : kvs ≠ []) :
+    parsePlugins (.omap kvs) = .ok (some (kvs.map fun (k, v) => some { source := k, config := toMapRec v })) := by
+  unfold parsePlugins
+  have : kvs.isEmpty = false := by simpa using hne
+  simp only [this]
+  rfl
+
+/-! ## Env, matrix, cache -/
+
+theorem ssElems_forall₂ : (kvs : List (String × Val)) → (l : List (String × String)) → ssElems kvs = .ok l →
+    List.Forall₂ (fun kv e => e.1 = kv.1 ∧ strOf kv.2 = .ok e.2) kvs l
+  | [], l, h => by
+    simp only [ssElems, Except.ok.injEq] at h
+    subst h; exact .nil
+  | (k, v) :: r, l, h => by
+    unfold ssElems at h
+    cases hs : strOf v with
+    | error e => simp [hs] at h
+    | ok s =>
+      simp only [hs, map_ok_iff] at h
+      obtain ⟨l', hr, rfl⟩ := h
+      exact .cons ⟨rfl, hs⟩ (ssElems_forall₂ r l' hr)
+
+theorem env_scalars_strings (kvs : List (String × Val)) (l : List (String × String))
+    (h : parseEnvOrdered (.omap kvs) = .ok (some l)) :
+    List.Forall₂ (fun kv e => e.1 = kv.1 ∧ strOf kv.2 = .ok e.2) kvs l := by
+  simp only [parseEnvOrdered, map_ok_iff, Option.some.injEq] at h
+  obtain ⟨l', hr, rfl⟩ := h
+  exact ssElems_forall₂ kvs _ hr
+
+theorem strsElems_length : (xs : List Val) → (l : List String) → strsElems xs = .ok l → l.length = xs.length
+  | [], l, h => by
+    simp only [strsElems, Except.ok.injEq] at h
+    subst h; rfl
+  | v :: r, l, h => by
+    unfold strsElems at h
+    cases hs : strOf v with
+    | error e => simp [hs] at h
+    | ok s =>
+      simp only [hs, map_ok_iff] at h
+      obtain ⟨l', hr, rfl⟩ := h
+      simp [strsElems_length r l' hr]
+
+theorem matrix_list_shorthand (xs : List Val) (m : Matrix) (h : parseMatrix (.seq xs) = .ok (some m)) (hne : xs ≠ []) :
+    ∃ l, strsOfSeq xs = .ok l ∧ mMatrix m = strsV l := by
+  simp only [parseMatrix, map_ok_iff, Option.some.injEq] at h
+  obtain ⟨l, hl, rfl⟩ := h
+  refine ⟨l, hl, ?_⟩
+  have hlen := strsElems_length xs l hl
+  cases l with
+  | nil =>
+    exfalso
+    exact hne (List.length_eq_zero_iff.1 hlen.symm)
+  | cons a t => simp [mMatrix, isSimple, lenUMap, mSetup]
+
+theorem cache_shorthands (s : String) (xs : List Val) :
+    (∃ c, parseCache (.str s) = .ok (some c) ∧ mCache c = .umap [("paths", strsV [s])]) ∧
+    (∃ c, parseCache (.bool false) = .ok (some c) ∧ mCache c = .bool false) ∧
+    (∀ l, strsOfSeq xs = .ok l → l ≠ [] → ∃ c, parseCache (.seq xs) = .ok (some c) ∧ mCache c = .umap [("paths", strsV l)]) := by
+  refine ⟨⟨_, rfl, ?_⟩, ⟨_, rfl, ?_⟩, fun l hl hne => ?_⟩
+  · simp [mCache, inlineFriendly, Marshal.umapOf, Marshal.umapInsert]
+  · simp [mCache]
+  · refine ⟨{ disabled := false, name := "", paths := some l, size := "", rem := none }, ?_, ?_⟩
+    · simp only [parseCache, hl]; rfl
+    · have : l.isEmpty = false := by simpa using hne
+      simp [mCache, inlineFriendly, Marshal.umapOf, Marshal.umapInsert, this]
+
+/-! ## Bare step list -/
+
+theorem parseSteps_nil (f : Nat) : parseSteps f [] = .ok ([], []) := by
+  rw [parseSteps]
+
+theorem parseSteps_cons (f : Nat) (v : Val) (r : List Val) :
+    parseSteps f (v :: r) =
+      match parseStep f v with
+      | .error e => .error e
+      | .ok (s, w) =>
+        match parseSteps f r with
+        | .error e => .error e
+        | .ok (ss, ws) => .ok (s :: ss, w ++ ws) := by
+  rw [parseSteps]
+  rfl
+
+theorem parseSteps_length (f : Nat) : (xs : List Val) → (ss : List Step) → (ws : List Warn) →
+    parseSteps f xs = .ok (ss, ws) → ss.length = xs.length
+  | [], ss, ws, h => by
+    rw [parseSteps_nil] at h
+    simp only [Except.ok.injEq, Prod.mk.injEq] at h
+    rw [← h.1]; rfl
+  | v :: r, ss, ws, h => by
+    rw [parseSteps_cons] at h
+    split at h
+    · cases h
+    · split at h
+      · cases h
+      · rename_i ss' ws' hr
+        simp only [Except.ok.injEq, Prod.mk.injEq] at h
+        rw [← h.1, List.length_cons, List.length_cons, parseSteps_length f r ss' ws' hr]
+
+theorem mSteps_length : (ss : List Step) → (js : List Val) → mSteps ss = .ok js → js.length = ss.length
+  | [], js, h => by
+    rw [mSteps_nil] at h
+    simp only [Except.ok.injEq] at h
+    rw [← h]; rfl
+  | s :: r, js, h => by
+    rw [mSteps_cons] at h
+    split at h
+    · cases h
+    · split at h
+      · cases h
+      · rename_i vs hr
+        simp only [Except.ok.injEq] at h
+        rw [← h, List.length_cons, List.length_cons, mSteps_length r vs hr]
+
+theorem bare_list_becomes_steps (xs : List Val) (p : Pipeline) (ws : List Warn) (j : Val)
+    (h : parsePipeline (.seq xs) = .ok (p, ws)) (hj : mPipeline p = .ok j) :
+    ∃ js, j = .umap [("steps", .seq js)] ∧ js.length = xs.length := by
+  unfold parsePipeline at h
+  simp only at h
+  cases hp : parseSteps stepFuel xs with
+  | error e => simp [hp] at h
+  | ok r =>
+    obtain ⟨ss, ws'⟩ := r
+    simp only [hp, Except.ok.injEq, Prod.mk.injEq] at h
+    obtain ⟨rfl, _⟩ := h
+    unfold mPipeline at hj
+    simp only at hj
+    cases hm : mSteps ss with
+    | error e => simp [hm, Except.map] at hj
+    | ok js =>
+      simp only [hm, Except.map, Except.ok.injEq] at hj
+      refine ⟨js, ?_, ?_⟩
+      · rw [← hj]
+        simp [inlineFriendly, Marshal.umapOf, Marshal.umapInsert]
+      · rw [mSteps_length ss js hm, parseSteps_length _ xs ss ws' hp]
+
 end GoPipeline.Parse
